@@ -22,6 +22,11 @@ func c08Args(i int) []ugo.Object {
 	return []ugo.Object{ugo.Int(i*7 + 1), ugo.String(c08WIDs[i] + "-arg")}
 }
 
+// c08Surplus are the arguments behind the fixed ones (bound to `...PR` of scripts generated with VarParams).
+func c08Surplus(i int) []ugo.Object {
+	return []ugo.Object{ugo.Int(100 + i), ugo.String("extra"), ugo.Int(i)}
+}
+
 var c08WIDs = []string{"w0", "vm-one", "thirdVM", "x"}
 
 type c08Result struct {
@@ -55,10 +60,11 @@ func c08RunVMG(vm *ugo.VM, w *sim.World, globals ugo.Object, args []ugo.Object) 
 
 // c08RunVMNil runs a script generated with NilGlobals: no globals object, host functions as trailing arguments.
 func c08RunVMNil(vm *ugo.VM, w *sim.World, args []ugo.Object) c08Result {
-	a := append([]ugo.Object{}, args...)
+	a := append([]ugo.Object{}, args[:2]...)
 	for _, n := range []string{"log", "op", "choose", "call", "trace", "WID"} {
 		a = append(a, w.Globals[n])
 	}
+	a = append(a, args[2:]...)
 	return c08RunVMG(vm, w, nil, a)
 }
 
@@ -71,7 +77,15 @@ func c08Run(rc *sim.RunCtx) {
 		runVM = c08RunVMNil
 		rc.Probe("vms-run-with-nil-globals")
 	}
-	g := newGen(t, genConfig{Modules: true, Hosts: true, Consts: t.Bool(1, 2), Share: true, Params: true, NilGlobals: nilGlobals, MaxStmts: 8})
+	// in a quarter of the others the host hands one and the same argument slice to every VM (`vm.Run(g, job...)`)
+	sharedArgs := !nilGlobals && t.Bool(1, 4)
+	argsFor := func(i int) []ugo.Object {
+		if sharedArgs {
+			i = 0
+		}
+		return append(c08Args(i), c08Surplus(i)...)
+	}
+	g := newGen(t, genConfig{Modules: true, Hosts: true, Consts: t.Bool(1, 2), Share: true, Params: true, VarParams: true, NilGlobals: nilGlobals, MaxStmts: 8})
 	src, mods := g.program()
 	mm := newModuleMap(append(append([]srcModule{}, fixedModules...), mods...))
 	noOpt := t.Bool(1, 3)
@@ -96,6 +110,7 @@ func c08Run(rc *sim.RunCtx) {
 		}
 		bc = dbc
 	}
+	fpBefore := sim.Fingerprint(bc)
 	n := 2 + t.Draw(3)
 	specs := make([]*sim.WorldSpec, n)
 	for i := range specs {
@@ -115,12 +130,18 @@ func c08Run(rc *sim.RunCtx) {
 		capped := false
 		for i := range specs {
 			sc.Steps = 0
-			a := runVM(ugo.NewVM(bc).SetRecover(true), sim.NewWorld(specs[i], nil), c08Args(i))
+			a := runVM(ugo.NewVM(bc).SetRecover(true), sim.NewWorld(specs[i], nil), argsFor(i))
 			capped = capped || sc.Capped
 			sc.Steps = 0
-			b := runVM(ugo.NewVM(bc).SetRecover(true), sim.NewWorld(specs[i], nil), c08Args(i))
+			b := runVM(ugo.NewVM(bc).SetRecover(true), sim.NewWorld(specs[i], nil), argsFor(i))
 			capped = capped || sc.Capped
 			if !a.out.Equal(b.out) || a.trace != b.trace {
+				if sim.Fingerprint(bc) != fpBefore {
+					// the first of two solo runs changed what the second one executed
+					rc.Decoded = map[string]any{"script": src, "first": a.out.String(), "second": b.out.String()}
+					rc.Fail("bytecode-modified", "bytecode-modified", "running the script once changed the shared Bytecode: a second VM run afterwards behaves differently\n first:  %s\n second: %s\nscript:\n%s", a.out, b.out, src)
+					return false
+				}
 				rc.Discard = "workload-not-self-deterministic"
 				rc.Logf("solo runs differ: %s vs %s", a.out, b.out)
 				return false
@@ -137,7 +158,6 @@ func c08Run(rc *sim.RunCtx) {
 	if !concurrentFirst && !runSolo() {
 		return
 	}
-	fpBefore := sim.Fingerprint(bc)
 
 	s := sim.NewSched(t)
 	s.MaxSteps = 400000
@@ -147,12 +167,20 @@ func c08Run(rc *sim.RunCtx) {
 	conc := make([]c08Result, n)
 	worlds := make([]*sim.World, n)
 	vms := make([]*ugo.VM, n)
+	shared := argsFor(0)
+	if sharedArgs {
+		rc.Probe("one-argument-slice-for-all-vms")
+	}
 	for i := 0; i < n; i++ {
 		i := i
 		worlds[i] = sim.NewWorld(specs[i], nil)
 		vms[i] = ugo.NewVM(bc).SetRecover(true)
 		s.Go("vm-"+c08WIDs[i], func() {
-			conc[i] = runVM(vms[i], worlds[i], c08Args(i))
+			a := argsFor(i)
+			if sharedArgs {
+				a = shared
+			}
+			conc[i] = runVM(vms[i], worlds[i], a)
 		})
 	}
 	// in a quarter of the runs the host aborts one VM at a drawn instruction: the others must not notice
@@ -283,6 +311,11 @@ func c08Run(rc *sim.RunCtx) {
 	if fp := sim.Fingerprint(bc); fp != fpBefore {
 		rc.Decoded = decoded()
 		rc.Fail("bytecode-modified", "bytecode-modified", "the shared Bytecode changed while VMs ran it\nscript:\n%s", src)
+		return
+	}
+	if sharedArgs && sim.Canon(ugo.Array(shared)) != sim.Canon(ugo.Array(argsFor(0))) {
+		rc.Decoded = decoded()
+		rc.Fail("isolation", "isolation:host-arguments-modified", "the argument slice the host passed to every VM was modified by the scripts: %s instead of %s\nscript:\n%s", sim.Canon(ugo.Array(shared)), sim.Canon(ugo.Array(argsFor(0))), src)
 	}
 }
 
